@@ -7,6 +7,8 @@ export CARGO_NET_OFFLINE=true
 ( cd extract && timeout 300 ./build.sh )
 cp -f /repo/Cargo.lock harness/Cargo.lock
 cp -f /repo/Cargo.lock textharness/Cargo.lock
+cp -f /repo/Cargo.lock staticharness/Cargo.lock
 ( cd harness && timeout 1700 cargo build --offline 2>&1 | tail -2 )
 ( cd textharness && timeout 900 cargo build --offline 2>&1 | tail -2 )
+( cd staticharness && timeout 900 cargo build --offline 2>&1 | tail -2 )
 echo setup done
